@@ -1,6 +1,7 @@
 """C01 -- N-D form equals the coordinate map defined by the ancillary matrices."""
 import os
 
+import dask
 import dask.array as da
 import h5py
 import numpy as np
@@ -100,7 +101,8 @@ def run(ctx, build):
                         with common.quiet():
                             nd, ok, labs = reshape_to_n_dims(main, h5_pos=hp, h5_spec=hs, get_labels=True, sort_dims=sd, lazy=lazy)
                         if lazy:
-                            nd = nd.compute()
+                            with common.quiet():
+                                nd = dask.compute(nd, gen.Bystander.get(ctx.tmp).lazy_form())[0]
                         if vname in ('numpy', 'dask'):
                             names = ['Position Dimension %d' % i for i in range(len(lay.pos_sizes))] + \
                                     ['Spectral Dimension %d' % i for i in range(len(lay.spec_sizes))]
@@ -137,7 +139,8 @@ def run(ctx, build):
                 seen = {}
                 # a history of reads (E eager / L lazy) and toggles (T); every read is judged on its own and against
                 # the previous read with the same parity of toggles
-                ops = 'ETETLTE' if (li + int(sd)) % 2 == 0 else ''.join(rng.choice('EELT') for _ in range(7)) + 'E'
+                # X = a request the object must refuse (unknown dimension / index out of range): it must leave the view as it was
+                ops = 'ETEXTLTXE' if (li + int(sd)) % 2 == 0 else ''.join(rng.choice('EELTX') for _ in range(7)) + 'E'
                 t = 0
                 failed = False
                 for op in ops:
@@ -146,12 +149,24 @@ def run(ctx, build):
                             u.toggle_sorting()
                         t += 1
                         continue
+                    if op == 'X':
+                        for bad_call in (lambda: u.slice_to_dataset({'no_such_dimension': 0}),
+                                         lambda: u.slice({lay.pos_labels[0]: lay.pos_sizes[0] + 5}, ndim_form=False),
+                                         lambda: u.slice_to_dataset({lay.spec_labels[-1]: [lay.spec_sizes[-1] + 2]})):
+                            try:
+                                with common.quiet():
+                                    bad_call()
+                            except Exception:
+                                pass
+                        hist['refused_requests_in_histories'] = hist.get('refused_requests_in_histories', 0) + 1
+                        continue
                     lazy = (op == 'L')
                     try:
                         with common.quiet():
                             nd = u.get_n_dim_form(lazy=lazy)
-                        if lazy:
-                            nd = nd.compute()
+                            if lazy:
+                                # evaluated in ONE dask call together with the lazy form of the bystander (another file, same path)
+                                nd = dask.compute(nd, gen.Bystander.get(ctx.tmp).lazy_form())[0]
                     except Exception as e:
                         hist['exceptions'][type(e).__name__] = hist['exceptions'].get(type(e).__name__, 0) + 1
                         ecases.append(cpair(*base, cbool(sd)))
